@@ -285,7 +285,8 @@ def split_long_rle_lengths(values, lengths, dtype=np.int64):
     of type `dtype`, while `values` will be the same as the value passed in.
     """
     max_length = np.iinfo(dtype).max
-    lengths = np.asarray(lengths)
+    # the maximum of `dtype` may not fit the dtype the lengths are stored in
+    lengths = np.asarray(lengths, dtype=np.int64)
     repeats = lengths // max_length
     if np.any(repeats):
         repeats += 1
